@@ -29,10 +29,10 @@ from vh import core, pytolean
 
 GEN_DIR = os.path.join(core.LEAN_DIR, 'SkModel', 'Gen')
 PROP_FUNCS = {
-    'C11': ['find_token', 'find_token_reverse'],
-    'C04': ['find_token', 'find_token_reverse'],
-    'C13': ['find_token', 'find_token_reverse'],
-    'C16': ['since_window'],
+    'C11': ['find_token', 'find_token_reverse', 'try_find_line'],
+    'C04': ['find_token', 'find_token_reverse', 'try_find_line'],
+    'C13': ['find_token', 'find_token_reverse', 'try_find_line'],
+    'C16': ['since_window', 'line_date_is_valid', 'apply_to_line'],
     'C18': ['num_parallel_tasks'],
 }
 ALL_FUNCS = [s['name'] for s in pytolean.FUNCS]
@@ -66,6 +66,7 @@ def _recheck(text):
     with open(os.path.join(GEN_DIR, 'Bridge.lean')) as f:
         bridge = f.read()
     src = ("import SkModel.Gen.PyPrim\nimport SkModel.Runner\nimport SkModel.Since\n"
+           "import SkModel.Theorems.C16\n"
            + _strip_imports(text) + _strip_imports(bridge)
            + ''.join(f"#print axioms Sk.Gen.bridge_{n}\n" for n in ALL_FUNCS))
     out = _lean(src)
@@ -86,15 +87,29 @@ def _recheck(text):
 SEARCH = """
 open Sk Sk.Gen Sk.Py
 def mkF (bits len : Nat) : FileV := ⟨len, fun i => bits.testBit i⟩
-def ofSeek' : Except SeekErr Tok → Py.Res Tok
+def errName' : SeekErr → String
+  | .maxLineLen => "MaxSearchableLineLengthReached"
+  | .assertFailed => "AssertionError"
+  | .tooManyUndated => "TooManyLinesWithoutDate"
+  | .noTimestamps => "NoTimestampsFoundInFile"
+  | .noValidLines => "NoValidLinesFoundInFile"
+def ofSeek' {α : Type} : Except SeekErr α → Py.Res α
   | .ok t => .ret t
-  | .error .maxLineLen => .exc "MaxSearchableLineLengthReached"
-  | .error _ => .exc "other"
-def showR : Py.Res Tok → String
-  | .ret (.found o) => s!"FOUND:{o}"
-  | .ret (.edge o) => s!"REACHED_EOF:{o}"
+  | .error e => .exc (errName' e)
+def showT : Tok → String
+  | .found o => s!"FOUND:{o}"
+  | .edge o => s!"REACHED_EOF:{o}"
+class ShowV (α : Type) where sh : α → String
+instance : ShowV Tok := ⟨showT⟩
+instance : ShowV LLine := ⟨fun l => s!"LINE/{showT l.slf}/{showT l.elf}"⟩
+def showR {α : Type} [ShowV α] : Py.Res α → String
+  | .ret v => ShowV.sh v
   | .exc n => s!"EXC:{n}"
   | .diverge => "DIVERGE"
+def optsL (len : Nat) : List (Option Int) := [none, some (-1), some 0, some 1, some len]
+def showO : Option Int → String
+  | none => "N"
+  | some v => s!"{v}"
 def bridgeSearch : IO Unit := do
   let mut n := 0
   for len in [0:9] do
@@ -108,6 +123,11 @@ def bridgeSearch : IO Unit := do
   IO.println "done"
 #eval bridgeSearch
 """
+CMP_TFL = """for a in optsL len do
+              for b in optsL len do
+                if n < 40 && try_find_line K F s a b 77 (E+2) != ofSeek' (tryFindLine K F s a b) then
+                  IO.println s!"DIS try_find_line {len} {bits} {H} {E} {s} {showR (try_find_line K F s a b 77 (E+2))} {showR (ofSeek' (tryFindLine K F s a b))} {showO a} {showO b}"
+                  n := n + 1"""
 CMP = """if n < 40 && %s K F s 77 (E+2) != ofSeek' (%s K F s) then
               IO.println s!"DIS {"%s"} {len} {bits} {H} {E} {s} {showR (%s K F s 77 (E+2))} {showR (ofSeek' (%s K F s))}"
               n := n + 1"""
@@ -120,6 +140,8 @@ def _small_scope(text, funcs):
         cmps.append(CMP % ('find_token', 'findToken', 'find_token', 'find_token', 'findToken'))
     if 'find_token_reverse' in funcs:
         cmps.append(CMP % ('find_token_reverse', 'findTokenReverse', 'find_token_reverse', 'find_token_reverse', 'findTokenReverse'))
+    if 'try_find_line' in funcs:
+        cmps.append(CMP_TFL)
     if not cmps:
         return [], True
     src = ("import SkModel.Gen.PyPrim\n" + _strip_imports(text)
@@ -128,9 +150,10 @@ def _small_scope(text, funcs):
     dis = []
     for ln in out.splitlines():
         if ln.startswith('DIS '):
-            _, fn, ln_, bits, h, e, s, g, m = ln.split()
+            _, fn, ln_, bits, h, e, s, g, m = ln.split()[:9]
             dis.append({'func': fn, 'len': int(ln_), 'bits': int(bits), 'H': int(h),
-                        'EXP': int(e), 'start': int(s), 'translated': g, 'model': m})
+                        'EXP': int(e), 'start': int(s), 'translated': g, 'model': m,
+                        'lfs': [None if x == 'N' else int(x) for x in ln.split()[9:]]})
     return dis, 'done' in out and 'error' not in out
 
 
@@ -161,9 +184,13 @@ def replay_on_impl(d):
             pass
         # the scan itself, against what the model says
         fn = getattr(seeker, d['func'])
+
+        def show(st):
+            return f"{st.status.name}:{st.offset}"
         try:
-            st = fn(d['start'])
-            got = f"{st.status.name}:{st.offset}"
+            st = fn(d['start'], *d.get('lfs', []))
+            got = show(st) if d['func'] != 'try_find_line' else \
+                f"LINE/{show(st._line_start_lf)}/{show(st._line_end_lf)}"
         except Exception as ex:  # pylint: disable=broad-except
             got = 'EXC:' + type(ex).__name__
         limit = (d['EXP'] - 1) * d['H']
@@ -234,7 +261,7 @@ def check(rep, prop):
         st = _recheck(text)
         for n, e in errors.items():
             st[n] = 'untranslatable: ' + e
-        broken = [n for n in ('find_token', 'find_token_reverse')
+        broken = [n for n in ('find_token', 'find_token_reverse', 'try_find_line')
                   if st.get(n) == 'proof-broken']
         dis, complete = _small_scope(text, broken) if broken else ([], True)
         res = {'status': st, 'disagreements': dis, 'search_complete': complete}
